@@ -67,6 +67,8 @@ def real_fn(sysm):
 SECTIONS = ['root_com', 'cinr', 'cd', 'cdof', 'cdofd', 'mass_mx', 'bias', 'passive', 'tau', 'qf_smooth',
             'q1', 'qd1', 'qdd', 'mass_mx1']
 SOLVE_SECTIONS = {'q1', 'qd1', 'qdd', 'mass_mx1'}
+MJ_SECTIONS = ['root_com', 'cinr', 'crb', 'cdof', 'cd', 'cdofd', 'mass_mx', 'bias', 'passive', 'tau', 'qf_smooth',
+               'q1', 'qd1']
 
 
 def parse_sections(line, names):
@@ -317,7 +319,28 @@ def run_cases(ctx, n_models, n_states, seed_offset=0, gen_opts=None, legs=True):
     for c in cases:
       args = wire.sys_tokens(c['sys']) + wire.vec_tokens(c['q']) + wire.vec_tokens(c['qd']) + wire.vec_tokens(c['act'])
       lines.append(' '.join(['dyn'] + args))
-    out = C.run_driver('Driver/C02.lean', lines)
+      lines.append(' '.join(['mjdyn'] + args))
+    out_all = C.run_driver('Driver/C02.lean', lines)
+    out, out_mj = out_all[0::2], out_all[1::2]
+    # leg B: Lean Spec vs real MuJoCo
+    for c, o in zip(cases, out_mj):
+      if o.startswith('bad'):
+        disagreements.append(dict(what=f'driver rejected a generated case (mjdyn): {o}', xml=c['xml'])); continue
+      if c['mj']['ncon'] or c['mj']['nefc']:
+        continue
+      spec = parse_sections(o, MJ_SECTIONS)
+      for name in MJ_SECTIONS:
+        tol = TOL_SOLVE if name in ('q1', 'qd1') else TOL_MJ
+        ok = q_close(c['sys'], spec[name], c['mj'][name], tol) if name == 'q1' else close(spec[name], c['mj'][name], tol)
+        if not ok:
+          a, b = spec[name].reshape(-1), np.asarray(c['mj'][name]).reshape(-1)
+          k = int(np.argmax(np.abs(a - b))) if a.shape == b.shape else -1
+          disagreements.append(dict(
+              what=f'Spec stage {name} (Lean MjD) differs from real MuJoCo ({c["types"]})',
+              xml=c['xml'], q=c['q'].tolist(), qd=c['qd'].tolist(), act=c['act'].tolist(), index=k,
+              lean=(a[k] if k >= 0 else a.shape), mujoco=(b[k] if k >= 0 else b.shape)))
+          break
+    # leg A: Lean Model vs the implementation
     for c, o in zip(cases, out):
       if o.startswith('bad'):
         disagreements.append(dict(what=f'driver rejected a generated case: {o}', xml=c['xml'])); continue
